@@ -18,7 +18,7 @@ RULE = ('real trace() text of generated spied charts on HsmWithQueues (chart nam
         'leading spaces) must strip to the same text as its element in the multi-line result. distinct_nontrivial = distinct (chart-name '
         'class, records, perturbation) tuples')
 CASES = {'quick': 2500, 'thorough': 200000}
-BUDGET = {'quick': 40, 'thorough': 300}
+BUDGET = {'quick': 150, 'thorough': 300}
 REQUIRE = {'traces': 2000, 'equivalent_pairs': 8000, 'different_pairs': 4000, 'single_lines': 10000}
 ASSUME = ['signal names contain no line breaks', 'single-line inputs carry leading spaces only (as documented)']
 
